@@ -55,3 +55,40 @@ package events
 //@   ensures kept: forall i uint16 :: old(i in store.idPubKey) ==> (i in store.idPubKey) && store.idPubKey[i] == old(store.idPubKey[i])
 //@   ensures [C24] counter: len(store.idPubKey) != old(len(store.idPubKey)) ==> disk(store.db, "pubKeys") == be16(len(store.idPubKey))
 //@   ensures [C24] entry: len(store.idPubKey) != old(len(store.idPubKey)) ==> disk(store.db, "pubKey" + be16(result)) == bytestr(deref(validatorPubKey))
+
+//@ # ---------------------------------------------------------------- loading: ids are resolved through the tables (C24)
+//@ # abstract views of a compact (stored) event and of a compiled one: ASSUMED to be what the per-type accessors and
+//@ # compile functions read / produce
+//@ ghost pkidOf(s stake) int
+//@ ghost addrIdOf(s stake) int
+//@ ghost addrIdOfA(s address) int
+//@ ghost evKeyNil(e Event) bool
+//@ ghost evKey(e Event) types.Pubkey
+//@ ghost evAddr(e Event) types.Address
+//@ func iface stake.pubKeyID
+//@   ensures result == pkidOf(recv)
+//@   modifies nothing
+//@ func iface stake.addressID
+//@   ensures result == addrIdOf(recv)
+//@   modifies nothing
+//@ func iface stake.compile
+//@   ensures result != nil && evKeyNil(result) == (arg0 == nil) && (arg0 != nil ==> evKey(result) == deref(arg0)) && evAddr(result) == arg1
+//@   modifies nothing
+//@ func iface address.addressID
+//@   ensures result == addrIdOfA(recv)
+//@   modifies nothing
+//@ func iface address.compile
+//@   ensures result != nil && evAddr(result) == arg0
+//@   modifies nothing
+//@ # C24: every stored event yields exactly one loaded event; a stake-type event gets the public key its id stands for -
+//@ # and NO key when its id is not in the table (id 0 is "recorded without a validator key") - and the address its id
+//@ # stands for; an address-type event gets the address its id stands for. (Stated as invariants about the event
+//@ # appended by each iteration.)
+//@ func (*eventsStore).LoadEvents
+//@   serves C24
+//@   requires store != nil
+//@   local items []compact
+//@   loop 0 invariant idx: -1 <= rangeindex && (rangeindex < len(items) || (rangeindex == -1 && len(items) == 0)) && len(resultEvents) == rangeindex + 1
+//@   loop 0 invariant stakekey: rangeindex >= 0 && typeis(items[rangeindex], "stake") ==> evKeyNil(resultEvents[rangeindex]) == !(pkidOf(items[rangeindex]) in store.idPubKey) && ((pkidOf(items[rangeindex]) in store.idPubKey) ==> evKey(resultEvents[rangeindex]) == store.idPubKey[pkidOf(items[rangeindex])])
+//@   loop 0 invariant stakeaddr: rangeindex >= 0 && typeis(items[rangeindex], "stake") ==> evAddr(resultEvents[rangeindex]) == store.idAddress[addrIdOf(items[rangeindex])]
+//@   loop 0 invariant addr: rangeindex >= 0 && !typeis(items[rangeindex], "stake") && !typeis(items[rangeindex], "*jail") && typeis(items[rangeindex], "address") ==> evAddr(resultEvents[rangeindex]) == store.idAddress[addrIdOfA(items[rangeindex])]
